@@ -132,6 +132,12 @@ class ListsLeg(object):
                     attrs["ID"] = [draw(st.sampled_from(["e%d" % i, str(8 + i), str(8 + i)]))]  # also purely numeric ids (9, 10, ...)
                 for k in draw(st.lists(st.sampled_from(["Parent", "exon_number", "note", "k"]), unique=True, max_size=3)):
                     attrs[k] = draw(st.lists(val, min_size=1, max_size=3))
+                if feats and draw(st.integers(0, 5)) == 0:
+                    # the same attributes as the neighbour (parts of one discontinuous feature; shared, ID-less exons)
+                    attrs = dict((k, list(v)) for k, v in feats[-1]["attrs"].items())
+                    if draw(st.booleans()):
+                        attrs["note"] = draw(st.sampled_from([["z", "a", "z"], ["10", "9"], ["b", "a"]]))
+                        feats[-1]["attrs"]["note"] = list(attrs["note"])
                 feats.append({"seqid": seqid, "start": start, "end": start + length,
                               "ft": draw(st.sampled_from(["exon", "exon", "CDS", "gene"])),
                               "strand": draw(st.sampled_from(["+", "+", "-", "."])), "attrs": attrs})
